@@ -16,7 +16,87 @@ var inlineStdPkgs = map[string]bool{
 	"encoding/binary": true,
 }
 
+// checkBefore: `before <callee> : expr` clauses of the enclosing contract are proof obligations
+// at every call whose callee key ends with <callee>.
+func (e *Engine) checkBefore(fr *Frame, st *State, c *ssa.CallCommon, ins ssa.Instruction) {
+	if fr.con == nil || len(fr.con.Asserts) == 0 {
+		return
+	}
+	var key string
+	if c.IsInvoke() {
+		key = ifaceKey(c.Value.Type(), c.Method.Name())
+	} else if fn := c.StaticCallee(); fn != nil {
+		key = funcKey(fn)
+	} else {
+		return
+	}
+	for suffix, cls := range fr.con.Asserts {
+		if !strings.HasSuffix(key, suffix) {
+			continue
+		}
+		ctx := e.invCtx(fr, st)
+		if c.IsInvoke() {
+			ctx.bind["arg0"] = e.val(fr, st, c.Value)
+			for i, a := range c.Args {
+				ctx.bind[fmt.Sprintf("arg%d", i+1)] = e.val(fr, st, a)
+			}
+		} else {
+			for i, a := range c.Args {
+				ctx.bind[fmt.Sprintf("arg%d", i)] = e.val(fr, st, a)
+			}
+		}
+		for _, cl := range cls {
+			if !hasTag(cl.Tags, e.curTags) {
+				continue
+			}
+			g, note := ctx.goal(cl.E)
+			name := fmt.Sprintf("%s/before@%s%s#%d.%d", e.curFn, key, fr.callPath, e.ordinal(fr.fn, ins, ""), cl.Ord)
+			e.addObl(st, name, "pre", cl.Tags, g, "obligation before calling "+key+": "+cl.Text+note, e.posStr(ins.Pos()))
+		}
+	}
+}
+
+// runAfter executes the `after <callee> : ghost = expr` statements of the enclosing contract.
+func (e *Engine) runAfter(fr *Frame, c *ssa.CallCommon, outs []Outcome) {
+	if fr.con == nil || len(fr.con.Afters) == 0 {
+		return
+	}
+	var key string
+	if c.IsInvoke() {
+		key = ifaceKey(c.Value.Type(), c.Method.Name())
+	} else if fn := c.StaticCallee(); fn != nil {
+		key = funcKey(fn)
+	} else {
+		return
+	}
+	for _, as := range fr.con.Afters {
+		if !strings.HasSuffix(key, as.Callee) || !hasTag(as.Tags, e.curTags) {
+			continue
+		}
+		for _, o := range outs {
+			ctx := e.invCtx(fr, o.st)
+			for i, r := range o.results {
+				ctx.bind[fmt.Sprintf("ret%d", i)] = r
+			}
+			s := ctx.soft()
+			v := s.eval(as.E)
+			if *s.nerr > 0 {
+				e.toolError("after %s: cannot evaluate %s (%s)", as.Callee, exprStr(as.E), *s.lastErr)
+				continue
+			}
+			o.st.ghost[as.Ghost] = v
+		}
+	}
+}
+
 func (e *Engine) doCall(fr *Frame, st *State, c *ssa.CallCommon, ins ssa.Instruction, cv *ssa.Call) []Outcome {
+	outs := e.doCall1(fr, st, c, ins, cv)
+	e.runAfter(fr, c, outs)
+	return outs
+}
+
+func (e *Engine) doCall1(fr *Frame, st *State, c *ssa.CallCommon, ins ssa.Instruction, cv *ssa.Call) []Outcome {
+	e.checkBefore(fr, st, c, ins)
 	args := make([]Value, 0, len(c.Args)+1)
 	if c.IsInvoke() {
 		recv, ok := e.val(fr, st, c.Value).(IfaceV)
@@ -622,6 +702,10 @@ func (e *Engine) checkPre(fr *Frame, st *State, con *Contract, fn *ssa.Function,
 	}
 	ord := e.ordinal(fr.fn, ins, "")
 	for _, cl := range con.Cases[0].Requires {
+		if !hasTag(cl.Tags, e.curTags) {
+			// a requirement stated for another property: neither checked nor assumed here
+			continue
+		}
 		g, note := ctx.goal(cl.E)
 		name := fmt.Sprintf("%s/pre@%s%s#%d.%d", e.curFn, con.Key, fr.callPath, ord, cl.Ord)
 		e.addObl(st, name, "pre", cl.Tags, g, "precondition of "+con.Key+": "+cl.Text+note, e.posStr(ins.Pos()))
